@@ -174,7 +174,7 @@ def run(ctx):
     ctx.mon("exhaustive boundary pairs x fmt x one", n)
     ctx.exhaustive = False  # random part follows
     # 2. random pairs
-    for _ in range(ctx.budget(20000, 3200000)):
+    for _ in range(ctx.budget(20000, 1200000)):
         r = rng.random()
         if r < 0.5:
             s = rng.randrange(1, S.LIMIT)
@@ -191,7 +191,7 @@ def run(ctx):
         ctx.case(("call", s, e, fmt, one), nontrivial(s + (1 if fmt == "bed" else 0), e), cls="random call")
     # 3. overlap ("Hence") clause on in-range overlapping / nested intervals
     inr = [v for v in vals if 1 <= v < S.LIMIT]
-    for _ in range(ctx.budget(15000, 1600000)):
+    for _ in range(ctx.budget(15000, 480000)):
         if rng.random() < 0.7:
             p = sorted(rng.choice(inr) for _ in range(4))
         else:
